@@ -119,6 +119,23 @@ func Extra() []Strat {
 			},
 			Doc: "no rule oracle: reference-free properties only",
 		},
+		{
+			// ApoStrategy whose fast period is above the slow one, by up to the slow period (the code
+			// buffers SlowPeriod values, which is what such a pair needs; the documented use has
+			// fast < slow). Only the properties that make no use of warm-up or rule look at it.
+			Name: "ApoFastAboveSlow", TerminationOnly: true, Params: []reg.Param{per("slow", 14), per("excess", 2)},
+			Build: func(c reg.Config) strategy.Strategy {
+				s := strend.NewApoStrategy()
+				excess := 1 + (c.P[1]-1)%c.P[0]
+				s.Apo.FastPeriod, s.Apo.SlowPeriod = c.P[0]+excess, c.P[0]
+				return s
+			},
+			Warm: func(s strategy.Strategy) int {
+				a := s.(*strend.ApoStrategy).Apo
+				return maxInt(a.FastPeriod, a.SlowPeriod)
+			},
+			Doc: "no rule oracle: reference-free properties only",
+		},
 	}
 }
 
@@ -369,8 +386,10 @@ func base() []Strat {
 			},
 		},
 		{
+			// only the slow period has to be the largest (the code aligns fast and medium with the
+			// slow line independently; the medium line may be quicker than the fast one)
 			Name: "TripleMovingAverageCrossover", InRegistry: true, Params: []reg.Param{per("fast", 21), per("medium", 50), per("slow", 200)},
-			Fix: func(c *reg.Config) { sort2(&c.P[0], &c.P[1]); sort2(&c.P[1], &c.P[2]); sort2(&c.P[0], &c.P[1]) },
+			Fix: func(c *reg.Config) { sort2(&c.P[0], &c.P[2]); sort2(&c.P[1], &c.P[2]) },
 			Build: func(c reg.Config) strategy.Strategy {
 				return strend.NewTripleMovingAverageCrossoverStrategyWith(c.P[0], c.P[1], c.P[2])
 			},
